@@ -1412,11 +1412,28 @@ impl<'l> CelCompiler<'l> {
         Ok(inits)
     }
 
+    /// `now()` and `timestamp()` read the clock: code that calls them (also inside argument
+    /// blocks) must run at every execution.
+    fn reads_clock(code: &[ByteCode]) -> bool {
+        code.windows(2).any(|w| match w {
+            [ByteCode::Push(CelValue::Ident(name)), ByteCode::Call(0)] => {
+                name == "now" || name == "timestamp"
+            }
+            _ => false,
+        }) || code.iter().any(|c| match c {
+            ByteCode::Push(CelValue::ByteCode(inner)) => Self::reads_clock(inner.as_slice()),
+            _ => false,
+        })
+    }
+
     #[inline]
     fn check_for_const(&self, member_prime_node: CompiledProg) -> CompiledProg {
         let mut i = Interpreter::empty();
         i.add_bindings(&self.bindings);
         let bc = member_prime_node.into_unresolved_bytecode().resolve();
+        if Self::reads_clock(bc.as_slice()) {
+            return CompiledProg::with_bytecode(bc);
+        }
         let r = i.run_raw(&bc, true);
 
         // A value computed while some name was unresolved (a variable, or a function or macro
